@@ -234,6 +234,19 @@ impl ImplState {
                 Some(z) => { self.searcher = crate::search::Searcher::new(); self.searcher.verif_set_zobrist(z); "ok".into() }
                 None => "bad-op".into(),
             },
+            // the keys the searcher under test actually DREW (ZobristTable::new()): all 837 non-zero and pairwise distinct?  The
+            // search theorems assume no collision among visited positions; keys that coincide by construction break that at once
+            "s.keysgood" => {
+                let (pk, w, ck, ek) = self.searcher.verif_zobrist().verif_keys();
+                let mut v: Vec<u64> = Vec::with_capacity(837);
+                for c in 0..2 { for p in 0..6 { for sq in 0..64 { v.push(pk[c][p][sq]); } } }
+                v.push(w);
+                for c in 0..2 { for sd in 0..2 { v.push(ck[c][sd]); } }
+                for sq in 0..64 { v.push(ek[sq]); }
+                let zeros = v.iter().filter(|x| **x == 0).count();
+                let mut sorted = v.clone(); sorted.sort(); let mut dups = 0; for i in 1..sorted.len() { if sorted[i] == sorted[i - 1] { dups += 1; } }
+                if zeros == 0 && dups == 0 { "good".into() } else { format!("BAD zero_keys={} repeated_keys={}", zeros, dups) }
+            }
             "s.go" if t.len() == 4 => match (parse_board(t[1]), t[2].parse::<u8>()) {
                 (Some(b), Ok(d)) => {
                     let (nl, pl, timed) = if t[3] == "none" { (None, None, false) }
